@@ -129,7 +129,8 @@ func (p *Program) CheckFunction(fn *ssa.Function, cfg *CheckConfig) *FuncReport 
 			}
 		}
 	}
-	infer := c != nil && (c.Sweep || len(c.Extra["opt"]) > 0 && strings.Contains(strings.Join(c.Extra["opt"], " "), "infer"))
+	// template invariants are inferred for the property a function is swept for (or on request: "opt infer")
+	infer := c != nil && (hasProp(c.Extra["sweep"], cfg.Property) || len(c.Extra["opt"]) > 0 && strings.Contains(strings.Join(c.Extra["opt"], " "), "infer"))
 	vc := NewVC(p, fn, opt)
 	if infer {
 		cands, err := vc.candidateInvariants()
